@@ -394,6 +394,9 @@ func (svc *service) subscribe(msg *message.SubscribeMessage, onComplete OnComple
 		return err2
 	}
 
+	// like publish(): a message object that is sent again gets a new packet ID
+	msg.SetPacketID(message.NewPacketID())
+
 	_, err := svc.writeRequest(msg, func() error { return svc.sess.Suback.Wait(msg, onc) })
 	if err != nil {
 		return fmt.Errorf("(%s) Error sending %s message: %v", svc.cid(), msg.Name(), err)
@@ -455,6 +458,9 @@ func (svc *service) unsubscribe(msg *message.UnsubscribeMessage, onComplete OnCo
 
 		return err2
 	}
+
+	// like publish(): a message object that is sent again gets a new packet ID
+	msg.SetPacketID(message.NewPacketID())
 
 	_, err := svc.writeRequest(msg, func() error { return svc.sess.Unsuback.Wait(msg, onc) })
 	if err != nil {
